@@ -224,6 +224,16 @@ def _worker(payload):
         return out
     new_bytes, orig_bytes = new.SerializeToString(), mp.SerializeToString()
     out["changed"] = new_bytes != orig_bytes
+    # the declared input types (symbolic dims included) decide which inputs a runtime accepts: they must be untouched
+    def _show(i):
+        tt = i.type.tensor_type
+        dims = [(d.dim_param or "?") if not d.HasField("dim_value") else d.dim_value for d in tt.shape.dim] if tt.HasField("shape") else None
+        return (i.name, tt.elem_type, dims)
+    sig_a = [_show(i) for i in mp.graph.input]
+    sig_b = [_show(i) for i in new.graph.input]
+    if [(n, i.type.SerializeToString(deterministic=True)) for n, i in zip([x.name for x in mp.graph.input], mp.graph.input)] != \
+       [(n, i.type.SerializeToString(deterministic=True)) for n, i in zip([x.name for x in new.graph.input], new.graph.input)]:
+        out["input_signature_changed"] = f"{sig_a} -> {sig_b}"
     names = sorted(symbols)
     bindings = list(itertools.product(VALUES, repeat=len(names)))
     if tier == "quick" and len(bindings) > 30:
@@ -265,10 +275,10 @@ def main(tier: str, only=None) -> int:
             onnx.checker.check_model(onnx.load_from_string(mb))
         except Exception:  # noqa: BLE001
             continue
-        modes = ["shared", "distinct", "unnamed", "lead", "lead_unnamed"] if (tier == "thorough" or fams[0] == "shape") else [r.choice(["shared", "distinct", "unnamed", "lead", "lead_unnamed"])]
+        modes = ["shared", "distinct", "unnamed", "lead", "lead_unnamed"] if (tier == "thorough" or fams[0] == "shape" or "full-range idiom" in tag) else [r.choice(["shared", "distinct", "unnamed", "lead", "lead_unnamed"])]
         for mode in modes:
             smb, symspec, symbols = redeclare(mb, spec, mode)
-            if not symbols or len(symbols) > 3:
+            if not symbols or len(symbols) > 4:
                 continue
             if only and only not in tag:
                 continue
@@ -276,6 +286,13 @@ def main(tier: str, only=None) -> int:
     with cf.ProcessPoolExecutor(max_workers=common.jobs()) as ex:
         results = list(ex.map(_worker, payloads, chunksize=2))
     counts, solver, samples, n_pairs, n_changed, uf_models, side = C3.aggregate(run, results, "C09", want_value=True, want_sides=False)
+    n_sig = 0
+    for r_ in results:
+        if r_.get("input_signature_changed"):
+            n_sig += 1
+            path = common.write_replay("C09", {"engine": "S", "harness": f"c09.{r_['model']}.signature", "rebuild": {"kind": "side", "transformation": "optimize(proto)"},
+                                               "model": r_["model"], "problem": "declared input types changed", "detail": r_["input_signature_changed"]})
+            run.violation(path, f"{r_['model']}: optimize() changed the declared graph inputs: {r_['input_signature_changed'][:260]}")
     n_exc = sum(1 for r_ in results for rec in r_["records"] if rec["verdict"] == "exception")
     both_fail = sum(1 for r_ in results for rec in r_["records"] if rec.get("both_fail"))
     run.coverage.update({
@@ -284,8 +301,8 @@ def main(tier: str, only=None) -> int:
                      "bindings": len(r_["records"]), "verdicts": sorted({rec["verdict"] for rec in r_["records"]})} for r_ in results[:12]],
         "model_binding_pairs": n_pairs, "evaluations": n_pairs, "distinct_nontrivial": sum(1 for r_ in results if r_.get("changed")),
         "verdicts": counts, "queries": solver, "bindings_where_both_models_fail": both_fail, "optimize_exceptions": n_exc,
-        "binding_values": VALUES,
+        "binding_values": VALUES, "models_with_changed_declared_inputs": n_sig,
     })
-    run.assumptions += ["one optimize() per declared model, many bindings per optimized model", "symbols bound to {0,1,2,3,7}; <=3 symbols per model",
+    run.assumptions += ["one optimize() per declared model, many bindings per optimized model", "symbols bound to {0,1,2,3,7}; <=4 symbols per model",
                         "floats as reals; a binding on which exactly one model fails counts as a counterexample"]
     return run.finish()
